@@ -72,7 +72,12 @@ pub fn gen_literal(c: &mut dyn Choices) -> String {
     } else {
         format!("0.{}{}", "0".repeat(scale - nd), digits)
     };
-    match c.below(10) {
+    match c.below(12) {
+        10 | 11 => {
+            // long runs of redundant leading zeros (fixed-size literal buffers, digit counters)
+            let k = [3usize, 17, 18, 19, 20, 30, 44, 46, 47, 48, 49, 50, 63, 64, 65, 100, 200][c.below(17) as usize];
+            s = format!("{}{}", "0".repeat(k), if s.starts_with('.') { format!("0{}", s) } else { s });
+        }
         0 => s = format!("00{}", s),
         1 if s.contains('.') => s.push('0'),
         2 if s.starts_with("0.") => s = s[1..].to_string(),
